@@ -2792,3 +2792,246 @@ func (r *Report) BandtssRest(key, fnKey string) {
 	}
 	r.OK(k, d, w.Pos(fund[0].Pos()), "transferred − paid×len(validMembers)")
 }
+
+// =====================================================================================
+// Control conditions of value edges (for variables that are SSA phis, not stores)
+
+type ctl struct {
+	pred   Pred
+	onTrue bool
+	pos    token.Pos
+}
+
+// controlConds: the (condition, polarity) pairs every path from entry to block b must have taken.
+func (w *World) controlConds(fn *ssa.Function, b *ssa.BasicBlock) []ctl {
+	var out []ctl
+	for d := b.Idom(); d != nil; d = d.Idom() {
+		ifi := ifOf(d)
+		if ifi == nil {
+			continue
+		}
+		t, f := d.Succs[0], d.Succs[1]
+		if t != f {
+			if edgeDominates(d, t, b) {
+				out = append(out, ctl{NormalizeCond(ifi.Cond), true, ifi.Cond.Pos()})
+			} else if edgeDominates(d, f, b) {
+				out = append(out, ctl{NormalizeCond(ifi.Cond), false, ifi.Cond.Pos()})
+			}
+		}
+	}
+	return out
+}
+
+func ctlSatisfies(cs []ctl, c Cond) bool {
+	for _, x := range cs {
+		if m, passOnTrue := c.Match(x.pred); m && passOnTrue == x.onTrue {
+			return true
+		}
+	}
+	return false
+}
+
+func ctlMentions(cs []ctl, atoms ...string) bool {
+	for _, x := range cs {
+		if x.pred.A != nil && x.pred.A.Has(atoms...) {
+			return true
+		}
+		if x.pred.B != nil && x.pred.B.Has(atoms...) {
+			return true
+		}
+	}
+	return false
+}
+
+// comparedPhi: the phi that is compared (as either operand of a relational BinOp) against a value containing otherAtoms.
+func comparedPhi(fn *ssa.Function, otherAtoms ...string) *ssa.Phi {
+	for _, b := range fn.Blocks {
+		for _, in := range b.Instrs {
+			bo, ok := in.(*ssa.BinOp)
+			if !ok {
+				continue
+			}
+			switch bo.Op {
+			case token.LSS, token.GTR, token.LEQ, token.GEQ:
+			default:
+				continue
+			}
+			if p, ok := bo.X.(*ssa.Phi); ok && Render(bo.Y).Has(otherAtoms...) && !Render(bo.Y).Has("phi") {
+				return p
+			}
+			if p, ok := bo.Y.(*ssa.Phi); ok && Render(bo.X).Has(otherAtoms...) && !Render(bo.X).Has("phi") {
+				return p
+			}
+		}
+	}
+	return nil
+}
+
+// PhiEdge: for the variable (phi) compared against `against`, every incoming value containing edgeAtoms arrives under
+// all of `must` and under no condition mentioning `mustNotMention`.
+func (r *Report) PhiEdge(key, fnKey string, against []string, edgeAtoms []string, must []Cond, mustNotMention [][]string) {
+	w := r.W
+	fn := w.Fn(fnKey)
+	d := fmt.Sprintf("in %s the variable compared with %v takes a value from %v only under %v and independently of %v", fnKey, against, edgeAtoms, must, mustNotMention)
+	k := fmt.Sprintf("%s|%s|%v<-%v", key, fnKey, against, edgeAtoms)
+	if fn == nil {
+		r.Unres(k, d, "function not found")
+		return
+	}
+	w.FuncsAnalysed[fn] = true
+	phi := comparedPhi(fn, against...)
+	if phi == nil {
+		r.Unres(k, d, "no merged variable is compared against that operand")
+		return
+	}
+	n := 0
+	seen := map[*ssa.Phi]bool{}
+	var bad string
+	var visit func(p *ssa.Phi)
+	visit = func(p *ssa.Phi) {
+		if seen[p] {
+			return
+		}
+		seen[p] = true
+		for i, e := range p.Edges {
+			if q, ok := e.(*ssa.Phi); ok {
+				visit(q)
+				continue
+			}
+			t := Render(e)
+			if !t.Has(edgeAtoms...) {
+				continue
+			}
+			n++
+			pred := p.Block().Preds[i]
+			cs := w.controlConds(fn, pred)
+			// the edge pred->phi block itself may be a conditional edge
+			if ifi := ifOf(pred); ifi != nil && pred.Succs[0] != pred.Succs[1] {
+				cs = append(cs, ctl{NormalizeCond(ifi.Cond), pred.Succs[0] == p.Block(), ifi.Cond.Pos()})
+			}
+			for _, c := range must {
+				if !ctlSatisfies(cs, c) {
+					bad = "value " + clip(t.String(), 100) + " flows in without " + c.String()
+				}
+			}
+			for _, mn := range mustNotMention {
+				if ctlMentions(cs, mn...) {
+					bad = "value " + clip(t.String(), 100) + " flows in only under a condition on " + strings.Join(mn, ",")
+				}
+			}
+		}
+	}
+	visit(phi)
+	if n == 0 {
+		r.Unres(k, d, "no incoming value matches")
+		return
+	}
+	if bad != "" {
+		r.Bad(k, d, w.FnPos(fn), bad)
+	} else {
+		r.OK(k, d, w.FnPos(fn), fmt.Sprintf("%d incoming value(s)", n))
+	}
+}
+
+// ConstArgCallers: callers of ctor passing the constant `val` at parameter idx ⊆ allowed (E1-arg).
+func (r *Report) ConstArgCallers(key, ctor string, idx int, val string, allowed []string) {
+	w := r.W
+	fn := w.Fn(ctor)
+	d := fmt.Sprintf("%s(...#%d=%s...) is called only in %v", ctor, idx, val, allowed)
+	k := key + "|" + ctor + "=" + val
+	if fn == nil {
+		r.Unres(k, d, "function not found")
+		return
+	}
+	found := map[string]string{}
+	for _, e := range w.CallersOf(fn) {
+		if !inRepoScope(e.Caller) || e.Site == nil {
+			continue
+		}
+		v := argValue(e.Site.Common(), idx)
+		c, ok := seeThrough(v).(*ssa.Const)
+		ck := FuncKey(rootFn(e.Caller))
+		if !ok {
+			found[ck+" (non-constant)"] = w.Pos(e.Site.Pos())
+			continue
+		}
+		if constString(c) == val {
+			found[ck] = w.Pos(e.Site.Pos())
+		}
+	}
+	if len(found) == 0 {
+		r.Unres(k, d, "no such call found")
+		return
+	}
+	for _, c := range sortedKeys(found) {
+		ok := false
+		for _, a := range allowed {
+			if c == a {
+				ok = true
+			}
+		}
+		if ok {
+			r.OK(k+"<-"+c, d, found[c], "allowed")
+		} else {
+			r.Bad(k+"<-"+c, d, found[c], c+" is not an allowed site")
+		}
+	}
+}
+
+// Conjunction: fn returns true only if both comparisons (variable < a) and (variable < b) hold.
+func (r *Report) Conjunction(key, fnKey string, a, b []string) {
+	w := r.W
+	fn := w.Fn(fnKey)
+	d := fmt.Sprintf("%s returns the conjunction of the comparison against %v and the comparison against %v", fnKey, a, b)
+	k := key + "|" + fnKey
+	if fn == nil {
+		r.Unres(k, d, "function not found")
+		return
+	}
+	var ret *ssa.Return
+	n := 0
+	for _, bl := range fn.Blocks {
+		if rt := returnOf(bl); rt != nil && bl != fn.Recover {
+			ret = rt
+			n++
+		}
+	}
+	if n != 1 || len(ret.Results) != 1 {
+		r.Bad(k, d, w.FnPos(fn), fmt.Sprintf("%d returns", n))
+		return
+	}
+	phi, ok := ret.Results[0].(*ssa.Phi)
+	if !ok || len(phi.Edges) != 2 {
+		r.Bad(k, d, w.posOr(ret.Pos(), fn), "result is not a short-circuit conjunction: "+clip(Render(ret.Results[0]).String(), 160))
+		return
+	}
+	var cmp *ssa.BinOp
+	var constEdge *ssa.Const
+	var constPred *ssa.BasicBlock
+	for i, e := range phi.Edges {
+		switch x := e.(type) {
+		case *ssa.Const:
+			constEdge, constPred = x, phi.Block().Preds[i]
+		case *ssa.BinOp:
+			cmp = x
+		}
+	}
+	if cmp == nil || constEdge == nil || constString(constEdge) != "false" {
+		r.Bad(k, d, w.posOr(ret.Pos(), fn), "result is not `x && y` (a disjunction or a single comparison)")
+		return
+	}
+	first := ifOf(constPred)
+	if first == nil {
+		r.Bad(k, d, w.posOr(ret.Pos(), fn), "no first comparison")
+		return
+	}
+	p1, p2 := NormalizeCond(first.Cond), NormalizeCond(cmp)
+	m := func(p Pred, x []string) bool {
+		return p.Op == "LSS" && !p.Neg && p.A.Has("phi") && p.B.Has(x...)
+	}
+	if (m(p1, a) && m(p2, b)) || (m(p1, b) && m(p2, a)) {
+		r.OK(k, d, w.Pos(ret.Pos()), "both strict comparisons, joined by &&")
+	} else {
+		r.Bad(k, d, w.posOr(ret.Pos(), fn), "comparisons are "+p1.String()+" and "+p2.String())
+	}
+}
